@@ -452,7 +452,7 @@ fn render_doc(spec: &ConfSpec, rate_secs: Option<u64>, version: u64, fmt: u64) -
     // appender tags carry the document version, so a delivery identifies the document that built its appender
     let mut apps = serde_json::Map::new();
     for a in &spec.appenders {
-        apps.insert(a.clone(), json!({"kind": "cap", "tag": format!("v{}:{}", version, a)}));
+        apps.insert(a.clone(), json!({"kind": "cap", "tag": format!("{} #v{}", a, version)}));
     }
     let mut loggers = serde_json::Map::new();
     for l in &spec.loggers {
@@ -529,7 +529,7 @@ fn reloader_history(rep: &mut Report, rng: &mut Rng, idx: u64) {
         for t in targets {
             for lvl in [Level::Error, Level::Info, Level::Trace] {
                 let got = deliver(&logger, &sink, &t, lvl, 1);
-                let mut want: Vec<String> = active.expected(&t, lvl).iter().map(|a| format!("v{}:{}", v, a)).collect();
+                let mut want: Vec<String> = active.expected(&t, lvl).iter().map(|a| format!("{} #v{}", a, v)).collect();
                 want.sort();
                 if got != want {
                     rep.violation("C15:reloader:active-configuration-differs", json!({"edit_history": ops.join(" "),
@@ -548,7 +548,7 @@ fn reloader_history(rep: &mut Report, rng: &mut Rng, idx: u64) {
     for _ in 0..steps {
         let Some(cur_rate) = rate else { break };
         mtime += Duration::from_secs(1 + rng.below(5));
-        let kind = rng.below(12);
+        let kind = rng.below(14);
         // what is on disk after the edit: None = deleted
         let mut on_disk: Option<String> = Some(text.clone());
         let mut new_valid: Option<(ConfSpec, Option<u64>, u64)> = None;
@@ -608,6 +608,23 @@ fn reloader_history(rep: &mut Report, rng: &mut Rng, idx: u64) {
                 write(&t, mtime - Duration::from_secs(7200));
                 on_disk = Some(t);
                 new_valid = Some((spec, rate, version));
+            }
+            12 => {
+                // only the appender tags change, i.e. text after " #" inside quoted values (not a comment!)
+                ops.push("change-only-behind-a-hash-sign-inside-quoted-values".into());
+                version += 1;
+                let spec = active.clone();
+                let t = render_doc(&spec, rate, version, fmt);
+                write(&t, mtime);
+                on_disk = Some(t);
+                new_valid = Some((spec, rate, version));
+            }
+            13 => {
+                // a refresh rate that is not a duration: the document is broken, like any other unparsable value
+                ops.push("misspelt-refresh-rate".into());
+                let bad = render_doc(&active, Some(7), active_version, fmt).replace("7 seconds", "7 secconds");
+                write(&bad, mtime);
+                on_disk = Some(bad);
             }
             11 => {
                 ops.push("tiny-broken-file".into());
@@ -847,7 +864,9 @@ fn child_e2e_links(dir: &std::path::Path) -> i32 {
         }
     };
     publish(&doc("a.log", "3 seconds"));
-    if let Err(e) = log4rs::init_file(&link, Default::default()) {
+    // the path is given relative to the working directory, as in most programs
+    let _ = std::env::set_current_dir(dir);
+    if let Err(e) = log4rs::init_file("current.yaml", Default::default()) {
         println!("RESULT {}", json!({"error": format!("init_file: {:#}", e)}));
         return 0;
     }
